@@ -56,6 +56,10 @@ def run(tier):
             reps.append(deductive.verify_function(rel2, q2, c2, hooks=XM.hooks(sites), prefix='%s::%s[update equations]' % (rel2, q2)))
     reps.append(XM.feasibility_stop_report())
     reps.append(XM.restart_termination_report())
+    from ..contracts import lossnd as ND1
+    for rel, q, c, tag in ND1.L1_ITEMS:
+        if tag == 'C18':
+            reps.append(deductive.verify_function(rel, q, c, hooks=ND1.hooks(ND1.SITES_L1), prefix='%s::%s[n-dimensional, L1]' % (rel, q)))
     return reps
 
 
